@@ -79,52 +79,72 @@ def argUint (x : Option Int) (dflt : Int) : Except PyErr Int :=
   let v := x.getD dflt
   if v < 0 then .error .ValueError else .ok v
 
+/-- `start_index` / `sample_count` against a length: `s ≤ len`, `s + n ≤ len` (default n = len - s) -/
+def window (len : Int) (start count : Option Int) : Except PyErr (Nat × Nat) := do
+  let s ← argUint start 0
+  if s > len then throw .StartIndexTooLargeError
+  let n ← argUint count (len - s)
+  if s + n > len then throw .StartIndexOrSampleCountTooLargeError
+  return (s.toNat, n.toNat)
+
+/-- irregular timing must carry one timestamp per sample (`_validate_timing`) -/
+def checkTimingCount (kind : Kind) (t : WTiming) (n : Nat) : Except PyErr Unit :=
+  if kind ≠ .spectrum ∧ t.mode = .irregular ∧ t.stamps.length ≠ n then .error .IrregularTimestampCountMismatchError
+  else .ok ()
+
+/-- geometry of `_init_with_new_array`: (start, count, capacity) -/
+def newGeom (count start cap : Option Int) : Except PyErr (Nat × Nat × Nat) := do
+  let s ← argUint start 0
+  let n ← argUint count 0
+  let c ← argUint cap n
+  return (s.toNat, n.toNat, c.toNat)
+
 /-- `_init_with_new_array` (+ the rest of `__init__`; timing validated against the sample count) -/
 def ctorNew (kind : Kind) (dtype : Nat) (dtypeOk : Bool) (count ncols start cap : Option Int) (fill : Int)
     (props : List (String × String)) (timing : Option WTiming) (scale : Int) : Except PyErr W := do
-  let s ← argUint start 0
-  let n ← argUint count 0
-  let c ← (if kind = .digital then argUint ncols 1 else .ok 1)
-  let capv ← argUint cap n
+  let g ← newGeom count start cap
+  if kind = .digital ∧ ncols.getD 1 < 0 then throw .ValueError
   if ¬ dtypeOk then throw .TypeError
-  if s > capv then throw .StartIndexTooLargeError
-  if s + n > capv then throw .StartIndexOrSampleCountTooLargeError
-  let t := timing.getD WTiming.empty
-  if kind ≠ .spectrum ∧ t.mode = .irregular ∧ t.stamps.length ≠ n.toNat then
-    throw .IrregularTimestampCountMismatchError
-  return { kind := kind, dtype := dtype, ncols := c.toNat,
-           buf := List.replicate capv.toNat (zeroRow c.toNat fill), start := s.toNat, count := n.toNat,
-           resizable := true, timing := t, scale := scale, props := props, namesCache := none }
+  if g.1 > g.2.2 then throw .StartIndexTooLargeError
+  if g.1 + g.2.1 > g.2.2 then throw .StartIndexOrSampleCountTooLargeError
+  checkTimingCount kind (timing.getD WTiming.empty) g.2.1
+  let c : Nat := if kind = .digital then (ncols.getD 1).toNat else 1
+  return { kind := kind, dtype := dtype, ncols := c,
+           buf := List.replicate g.2.2 (zeroRow c fill), start := g.1, count := g.2.1,
+           resizable := true, timing := timing.getD WTiming.empty, scale := scale, props := props,
+           namesCache := none }
 
-/-- `_init_with_provided_array` (+ the rest of `__init__`) -/
-def ctorArr (kind : Kind) (a : Arr) (dtypeReq : Option Nat) (dtypeOk : Bool) (start count ncols cap : Option Int)
-    (props : List (String × String)) (timing : Option WTiming) (scale : Int) : Except PyErr W := do
+/-- dtype / ndim checks of `_init_with_provided_array` -/
+def checkArr (kind : Kind) (a : Arr) (dtypeReq : Option Nat) (dtypeOk : Bool) : Except PyErr Unit := do
   if kind ≠ .digital ∧ a.ndim ≠ 1 then throw .ValueError
   if (dtypeReq.getD a.dtype) ≠ a.dtype then throw .DatatypeMismatchError
   if ¬ dtypeOk then throw .TypeError
   if kind = .digital ∧ a.ndim ≠ 1 ∧ a.ndim ≠ 2 then throw .ValueError
-  let len : Int := a.rows.length
+
+def checkCap (cap : Option Int) (len : Int) : Except PyErr Unit := do
   let capv ← argUint cap len
   if capv ≠ len then throw .CapacityMismatchError
-  let s ← argUint start 0
-  if s > capv then throw .StartIndexTooLargeError
-  let n ← argUint count (len - s)
-  if s + n > len then throw .StartIndexOrSampleCountTooLargeError
-  let c ← (if kind = .digital then argUint ncols a.ncols else .ok 1)
-  if kind = .digital ∧ c ≠ a.ncols then throw .SignalCountMismatchError
-  let t := timing.getD WTiming.empty
-  if kind ≠ .spectrum ∧ t.mode = .irregular ∧ t.stamps.length ≠ n.toNat then
-    throw .IrregularTimestampCountMismatchError
-  return { kind := kind, dtype := a.dtype, ncols := a.ncols, buf := a.rows, start := s.toNat, count := n.toNat,
-           resizable := a.owned, timing := t, scale := scale, props := props, namesCache := none }
+
+def checkNcols (kind : Kind) (ncols : Option Int) (have_ : Nat) : Except PyErr Unit := do
+  if kind = .digital ∧ ncols.getD have_ < 0 then throw .ValueError
+  if kind = .digital ∧ ncols.getD have_ ≠ have_ then throw .SignalCountMismatchError
+
+/-- `_init_with_provided_array` (+ the rest of `__init__`) -/
+def ctorArr (kind : Kind) (a : Arr) (dtypeReq : Option Nat) (dtypeOk : Bool) (start count ncols cap : Option Int)
+    (props : List (String × String)) (timing : Option WTiming) (scale : Int) : Except PyErr W := do
+  checkArr kind a dtypeReq dtypeOk
+  checkCap cap a.rows.length
+  let g ← window a.rows.length start count
+  checkNcols kind ncols a.ncols
+  checkTimingCount kind (timing.getD WTiming.empty) g.2
+  return { kind := kind, dtype := a.dtype, ncols := a.ncols, buf := a.rows, start := g.1, count := g.2,
+           resizable := a.owned, timing := timing.getD WTiming.empty, scale := scale, props := props,
+           namesCache := none }
 
 /-- `get_raw_data(start, count)` / `get_data` -/
 def getData (w : W) (start count : Option Int) : Except PyErr (List Row) := do
-  let s ← argUint start 0
-  if s > w.count then throw .StartIndexTooLargeError
-  let n ← argUint count ((w.count : Int) - s)
-  if s + n > w.count then throw .StartIndexOrSampleCountTooLargeError
-  return (w.view.drop s.toNat).take n.toNat
+  let g ← window w.count start count
+  return (w.view.drop g.1).take g.2
 
 /-- the capacity setter: `ndarray.resize` in place (prefix kept, zero fill), ValueError when the buffer is borrowed -/
 def setCapacity (w : W) (value : Option Int) : Except PyErr W := do
@@ -196,16 +216,23 @@ def mergeInto (w : W) (o : List (String × String)) : W :=
   let added := o.any (fun kv => kv.1 == LINE_NAMES) && !(w.props.any (fun kv => kv.1 == LINE_NAMES))
   { w with props := mergeProps w.props o, namesCache := if added then none else w.namesCache }
 
-/-- `append(ndarray, timestamps)` -/
-def appendArray (w : W) (a : Arr) (ts : Option (List Int)) (typesOk : Bool) : Except PyErr W := do
+/-- dtype / shape checks shared by `_append_array` and `_load_array` -/
+def checkInput (w : W) (a : Arr) : Except PyErr Unit := do
   if a.dtype ≠ w.dtype then throw .DatatypeMismatchError
   if w.kind ≠ .digital ∧ a.ndim ≠ 1 then throw .ValueError
   if w.kind = .digital ∧ a.ndim ≠ 1 ∧ a.ndim ≠ 2 then throw .ValueError
+
+def checkStampCount (ts : Option (List Int)) (n : Nat) : Except PyErr Unit :=
+  match ts with
+  | some l => if l.length ≠ n then .error .IrregularTimestampCountMismatchError else .ok ()
+  | none => .ok ()
+
+/-- `append(ndarray, timestamps)` -/
+def appendArray (w : W) (a : Arr) (ts : Option (List Int)) (typesOk : Bool) : Except PyErr W := do
+  checkInput w a
   if w.kind = .digital ∧ a.ncols ≠ w.ncols then throw .SignalCountMismatchError
   if w.kind = .spectrum ∧ ts.isSome then throw .TypeError
-  match ts with
-  | some l => if l.length ≠ a.rows.length then throw .IrregularTimestampCountMismatchError
-  | none => pure ()
+  checkStampCount ts a.rows.length
   let nt ← (if w.hasTiming then appendTimestamps w.timing ts typesOk else .ok w.timing)
   let w1 ← increaseCapacity w a.rows.length
   return { w1 with timing := nt, buf := writeAt w1.buf (w1.start + w1.count) a.rows,
@@ -243,22 +270,16 @@ def appendWaveforms (w : W) (os : List W) : Except PyErr (W × List Warning) := 
 
 /-- `load_data(array, copy=, start_index=, sample_count=)` -/
 def loadData (w : W) (a : Arr) (copy : Bool) (start count : Option Int) : Except PyErr W := do
-  if a.dtype ≠ w.dtype then throw .DatatypeMismatchError
-  if w.kind ≠ .digital ∧ a.ndim ≠ 1 then throw .ValueError
-  if w.kind = .digital ∧ a.ndim ≠ 1 ∧ a.ndim ≠ 2 then throw .ValueError
-  let len : Int := a.rows.length
-  let s ← argUint start 0
-  if s > len then throw .StartIndexTooLargeError
-  let n ← argUint count (len - s)
-  if s + n > len then throw .StartIndexOrSampleCountTooLargeError
-  if w.hasTiming ∧ w.timing.mode = .irregular ∧ n.toNat ≠ w.timing.stamps.length then
+  checkInput w a
+  let g ← window a.rows.length start count
+  if w.hasTiming ∧ w.timing.mode = .irregular ∧ g.2 ≠ w.timing.stamps.length then
     throw .IrregularTimestampCountMismatchError
   if w.kind = .digital ∧ a.ncols ≠ w.ncols then throw .SignalCountMismatchError
   if copy then
-    let w1 ← (if n.toNat > w.capacity then setCapacity w (some n) else .ok w)
-    return { w1 with buf := writeAt w1.buf 0 ((a.rows.drop s.toNat).take n.toNat), start := 0, count := n.toNat }
+    let w1 ← (if g.2 > w.capacity then setCapacity w (some (g.2 : Int)) else .ok w)
+    return { w1 with buf := writeAt w1.buf 0 ((a.rows.drop g.1).take g.2), start := 0, count := g.2 }
   else
-    return { w with buf := a.rows, start := s.toNat, count := n.toNat, resizable := a.owned }
+    return { w with buf := a.rows, start := g.1, count := g.2, resizable := a.owned }
 
 /-- a write through the data view: `w.raw_data[i] = row` -/
 def writeView (w : W) (i : Int) (row : Row) : Except PyErr W :=
